@@ -33,8 +33,8 @@ type Model struct {
 	// DevHas, when set, tells whether the device still holds a path: an orphaned leaf is part of the configuration only while
 	// it is really there (an aggregated delete of its list entry by another intent takes it along, which the statement leaves open)
 	DevHas  func(path string) bool
-	Touched    map[string]world.Path // list entries some intent ever touched
-	R0         map[string]*world.Leaf
+	Touched map[string]world.Path // list entries some intent ever touched
+	R0      map[string]*world.Leaf
 	// PrevWinners: choice winners before the transaction being judged (set by Hist.Step; diagnostics for C08 items)
 	PrevWinners map[string]string
 }
